@@ -341,6 +341,42 @@ def run(ctx: Ctx) -> None:
     r03_6(ctx, roots)
 
 
+def _expand_at(f: Func, e: ast.AST, at: ast.AST, depth: int = 5) -> ast.AST:
+    """e with every local replaced by the value of its definition that DOMINATES `at` (the closest one); flow-sensitive where
+    q.expand_locals gives up on a name assigned in several branches."""
+    cfg = cfg_of(f.node)
+    an = q.node_for(f, at)
+
+    class T(ast.NodeTransformer):
+        def __init__(self, d):
+            self.d = d
+
+        def visit_Name(self, n: ast.Name):
+            if not isinstance(n.ctx, ast.Load) or self.d <= 0:
+                return n
+            defs = [a for a in walk(f.node) if isinstance(a, (ast.Assign, ast.AnnAssign)) and a.value is not None
+                    and any(isinstance(t, ast.Name) and t.id == n.id for t in (a.targets if isinstance(a, ast.Assign) else [a.target]))]
+            dom = [a for a in defs if cfg.dominates(q.node_for(f, a), an) and q.node_for(f, a) is not an]
+            if not dom:
+                return n
+            # closest dominating definition: the one dominated by all the others
+            best = dom[0]
+            for a in dom[1:]:
+                if cfg.dominates(q.node_for(f, best), q.node_for(f, a)):
+                    best = a
+            # a later non-dominating redefinition that can still reach `at` makes the value ambiguous
+            others = [a for a in defs if a is not best and a not in dom and cfg.reaches(q.node_for(f, best), q.node_for(f, a)) and cfg.reaches(q.node_for(f, a), an)]
+            if others:
+                return n
+            if any(isinstance(x, ast.Name) and x.id == n.id for x in ast.walk(best.value)):
+                return n
+            import copy
+            return T(self.d - 1).visit(copy.deepcopy(best.value))
+
+    import copy
+    return T(depth).visit(copy.deepcopy(e))
+
+
 def r03_3(ctx: Ctx) -> None:
     f = ctx.prog.func("helpers", SANITISER)
     cfg = cfg_of(f.node)
@@ -368,8 +404,8 @@ def r03_3(ctx: Ctx) -> None:
             rnames = {n.id for n in ast.walk(r.value) if isinstance(n, ast.Name)}
             if vnames and vnames <= rnames:
                 same = True
-            vexp = q.expand_locals(f, v)
-            rexp = q.expand_locals(f, r.value)
+            vexp = _expand_at(f, v, r)
+            rexp = _expand_at(f, r.value, r)
             if norm(vexp) in norm(rexp):
                 same = True
             joined = [c.args[0] for c in ast.walk(vexp) if isinstance(c, ast.Call) and attr_tail(c) == "joinpath" and c.args]
